@@ -783,8 +783,8 @@ def _make_ipc_object(env: dict, variant: int):
         empty = pa.RecordBatch.from_arrays([pa.array([], f.type) for f in schema], schema=schema)
         loop = (empty, pa.KeyValueMetadata({LOCATION_KEY: b"https://origin.test/again?sig=LOOPSECRET"}))
         raw = stream([loop, (data, None)] if variant % 2 else [(data, None), loop])
-    elif kind == "nodata":
-        raw = stream([])
+    elif kind == "nodata":      # no batch at all: the size comes from padding in the schema's key-value metadata
+        raw = stream([], schema.with_metadata({b"pad": rnd.randbytes(max(0, env["obj"] - overhead))}))
     elif kind == "multi":
         raw = stream([(batch(blob // 2), None), (batch(blob // 2), None)])
     else:
@@ -888,20 +888,26 @@ def run(ctx: Ctx) -> None:
         _replay(ctx, wd)
         return
 
-    mf = 1 if quick else 2
-    fams = QUICK_FAMILIES if quick else ALL_FAMILIES
     # (1) intended design (Content-Range verified): every clause is an invariant;  (2) design as coded: every
-    #     clause except the one the known deviation breaks, and every complete behaviour is emitted for replay.
-    #     quick explores both designs in one TLC run, thorough in two.
+    #     clause except the one the deviation of the as-coded design breaks, and every complete behaviour is emitted
+    #     for replay.  quick: one TLC run for both designs, one non-nominal origin answer per behaviour.  thorough: two
+    #     non-nominal answers for the fetch families; the consumer / default-cap families (whose point is what happens
+    #     after the fetch) stay at one.
     if quick:
-        r = model_check(ctx, wd, "Fetch", "mc-intended+gen-as-coded", _consts(fams, fix=(True, False), max_faults=mf),
+        r = model_check(ctx, wd, "Fetch", "mc-intended+gen-as-coded",
+                        _consts(QUICK_FAMILIES, fix=(True, False), max_faults=1),
                         INVS + ["InvResultIntended", "EmitAsCoded"], deadlock=True, workers=8)
+        behs = r.json_lines
     else:
-        model_check(ctx, wd, "Fetch", "mc-intended", _consts(fams, fix=(True,), max_faults=mf), INVS + [INV_RESULT],
+        deep = tuple(f for f in ALL_FAMILIES if f not in ("decdefault", "resolve"))
+        model_check(ctx, wd, "Fetch", "mc-intended", _consts(deep, fix=(True,), max_faults=2), INVS + [INV_RESULT],
                     deadlock=True)
-        r = model_check(ctx, wd, "Fetch", "gen-as-coded", _consts(fams, fix=(False,), max_faults=mf),
+        r = model_check(ctx, wd, "Fetch", "gen-as-coded", _consts(deep, fix=(False,), max_faults=2),
                         INVS + ["Emit"], timeout=1500, deadlock=True)
-    behs = r.json_lines
+        r2 = model_check(ctx, wd, "Fetch", "mc-intended+gen-as-coded:consumer",
+                         _consts(("decdefault", "resolve"), fix=(True, False), max_faults=1),
+                         INVS + ["InvResultIntended", "EmitAsCoded"], deadlock=True)
+        behs = r.json_lines + r2.json_lines
     if not behs:
         raise MachineryError("Fetch: no behaviours emitted")
     ctx.extra["behaviours_enumerated_by_tlc"] = len(behs)
@@ -924,7 +930,7 @@ def run(ctx: Ctx) -> None:
                 variant = bi + 7 * v
                 tr, sc = run_virtual(env, answers, variant)
                 _keep(ctx, traces, meta, seen, tr, sc, "fetch_with_probe", answers, variant)
-            if env["pace"] == "flat" and bi % (6 if quick else 2) == 0:
+            if env["pace"] == "flat" and bi % (6 if quick else 3) == 0:
                 for tr in pool.run(env, answers, bi + 3):
                     _keep(ctx, traces, meta, seen, tr, pool.scenario, "fetch_url", answers, bi + 3)
     finally:
